@@ -64,6 +64,10 @@ var covering = []string{
 	`forbid (principal, action, resource) when { datetime(context.name) > datetime("2024-01-01") || duration(context.b).toHours() > 1 };`,
 	`permit (principal, action, resource) when { [principal, context.a, resource].contains(User::"a") && {x: context.a, y: principal}.y == principal };`,
 	`permit (principal, action, resource) when { context.name like "1*" && principal.name like "*a*" };`,
+	// tags, and constant conditions nested in records / tag keys (folding and the validator look inside)
+	`permit (principal, action, resource) when { principal.hasTag(context.name) && principal.getTag(context.name) == "v" };`,
+	`permit (principal, action, resource) when { resource.getTag(if true then "k" else "j") == "v" || principal.getTag({k: "a", j: (if false then "x" else "k")}.j) like "*" };`,
+	`forbid (principal, action, resource) when { {a: (if 1 == 1 then context.a else context.b), b: [if false then 1 else 2]}.b.contains(2) && resource.hasTag("k") };`,
 }
 
 type fixture struct {
@@ -83,17 +87,18 @@ type fixture struct {
 	sents    types.EntityMap
 	texts    []string
 	fxName   string
+	zeroPS   *cedar.PolicySet // a zero-value set that nobody has added to yet
 }
 
 func (f *fixture) roots() ([]any, []string) {
-	return []any{f.ps, f.pols, f.ents, f.reqs, f.breqs, f.vals, f.set, f.rec, f.schema, f.resolved, f.val, f.spols, f.sents},
-		[]string{"policy set", "policies", "entity map", "requests", "batch requests", "values", "set value", "record value", "schema", "resolved schema", "validator", "schema fixture policies", "schema fixture entities"}
+	return []any{f.ps, f.pols, f.ents, f.reqs, f.breqs, f.vals, f.set, f.rec, f.schema, f.resolved, f.val, f.spols, f.sents, f.zeroPS},
+		[]string{"policy set", "policies", "entity map", "requests", "batch requests", "values", "set value", "record value", "schema", "resolved schema", "validator", "schema fixture policies", "schema fixture entities", "zero-value policy set"}
 }
 
 func genFixture(r *core.Run) *fixture {
 	g := gen.New(r.T)
 	g.Swarm()
-	f := &fixture{ps: cedar.NewPolicySet()}
+	f := &fixture{ps: cedar.NewPolicySet(), zeroPS: &cedar.PolicySet{}}
 	n := 4 + r.T.Intn(6)
 	for i := 0; i < n; i++ {
 		var txt string
@@ -306,6 +311,15 @@ func (f *fixture) operations() []operation {
 		}
 		sort.Strings(ids)
 		return fmt.Sprint(ids, len(f.ps.Map()))
+	})
+	add("read-only calls on a zero-value PolicySet", func() string {
+		n := 0
+		for range f.zeroPS.All() {
+			n++
+		}
+		d, g := cedar.Authorize(f.zeroPS, f.ents, f.reqs[0])
+		j, err := f.zeroPS.MarshalJSON()
+		return fmt.Sprint(n, f.zeroPS.Get("x") == nil, len(f.zeroPS.Map()), string(f.zeroPS.MarshalCedar()), string(j), err, diagString(d, g))
 	})
 	add("Policy.AST/Annotations/Position/Effect", func() string {
 		var sb strings.Builder
